@@ -1395,7 +1395,8 @@ fn process_fn(
         } else if sp.at == "end" {
             let id = markers.mk(&sp.text);
             let st = Stmt::Expr(Expr::Verbatim(quote!(#id)), None);
-            let has_tail = matches!(block.stmts.last(), Some(Stmt::Expr(_, None)));
+            // before the tail expression, or before a final `return ..;` statement
+            let has_tail = matches!(block.stmts.last(), Some(Stmt::Expr(_, None))) || matches!(block.stmts.last(), Some(Stmt::Expr(Expr::Return(_), Some(_))));
             if has_tail { let n = block.stmts.len() - 1; block.stmts.insert(n, st); } else { block.stmts.push(st); }
             sp.used = true;
         }
